@@ -16,21 +16,22 @@ T = {
     'C02': ('M-INV invariant hook + R1 reference differential on exotic trees (two routes) + metamorphic pruning invariance',
             'exploration', '4/C02',
             'Random spec-valid exotic trees (all 7 pruned masks, library refs, Merkle proofs/updates nested to level 3) built via Builder(type_) '
-            'and parsed from an independent encoding; every cell compared with R1 at levels 0..3; exhaustive prunings of small trees.',
+            'and parsed from an independent encoding; every cell compared with R1 at levels 0..3; exhaustive prunings of small trees. Third route: a foreign encoding with stored hashes on exotic and ordinary cells (masks 0/1/3/7).',
             'R1 exotic semantics (validated on the main-net block and by pruning invariance inside the reference)'),
     'C03': ('metamorphic round-trip monitor (encode/decode = id) over DAG classes x options x forms x entry points, with M-INV on parsed cells',
             'exploration', '4/C03',
             'DAG classes incl. exotic trees, maximal sharing and header-width boundaries through all 6 option sets, 3 input forms and 4 entry points; '
-            'parsed root compared by hash and recursively by (type, bits, refs).', 'library hash trusted only via C01/C02 (checked again here against R1)'),
+            'parsed root compared by hash and recursively by (type, bits, refs). Sources built four ways: shared objects, equal cells as distinct objects, '
+            'Cell(...) from plain / Tvm bit arrays, and a root that itself came out of the parser.', 'library hash trusted only via C01/C02 (checked again here against R1)'),
     'C04': ('reference-model monitor: strict independent BoC decoder (R2) on every emission',
             'exploration', '4/C04',
             'Every to_boc emission (6 option sets) is decoded by a strict decoder written from boc.tlb: widths, forward refs, distinct cells, index = '
-            'cumulative end offsets (x2 with cache bits), CRC coverage, flags, level-mask byte, reachability; decoded DAG compared with the source.',
+            'cumulative end offsets (x2 with cache bits), CRC coverage, flags, level-mask byte, reachability; decoded DAG compared with the source. Also sequences of bags from the same objects and DAGs whose equal cells are distinct Python objects.',
             'R2 decoder validated on the pinned main-net block'),
     'C05': ('reference-model monitor (R2 encoder with all freedoms) + fault enumeration (all bit flips, truncations, extensions, reference rewrites)',
             'fault_enumeration', '4/C05',
             'Positive: conforming encodings under every encoder freedom must parse to the denoted roots. Negative: for bases <= 320 bytes every '
-            'single-bit flip of CRC-protected input, every truncation, extensions, every reference slot rewritten (self/backward/dangling) must raise.',
+            'single-bit flip of CRC-protected input, every truncation, extensions, every reference slot rewritten (self/backward/dangling) must raise. Bags re-using the cell bytes of a bag parsed just before at shifted positions are judged differentially by the strict decoder.',
             'R2 encoder self-checked by the R2 decoder on every case; rejection = any Exception'),
     'C06': ('reference bit-writer differential (R3) + sequential shadow of slice position + preload/load postconditions',
             'exploration', '4/C06',
@@ -40,7 +41,7 @@ T = {
     'C07': ('sequential shadow model of builder capacity / slice remaining + M-INV capacity invariant on every constructed cell',
             'exploration', '4/C07',
             'Fill level 0..1023 x store kind x {room, exact, one too many}; ref fill x composite stores; out-of-range values; depth limit; every '
-            'remaining length x read kind x over-read amounts x 10 slice origins; random histories with shadow re-sync after expected failures.',
+            'remaining length x read kind x over-read amounts x 10 slice origins; random histories with shadow re-sync after expected failures. Depth limit at every level: parents of pruned branches claiming depths 1022/1023 per level (all masks), Merkle cells over chains at the limit.',
             'shadow model = bit string + ref count; "refused" = any Exception'),
     'C08': ('M-SNAP snapshot registry re-validated after every operation of random histories + Cell.order postcondition + pure-call re-evaluation',
             'exploration', '4/C08',
@@ -57,23 +58,23 @@ T = {
             'every parser entry point',
             'exploration', '4/C10',
             'Label table (n, m, uniform/mixed): all pairs in thorough, all m<=48 plus tie-break bands in quick; random maps over hostile shapes; parser half: '
-            'reference trees with random valid label kinds (incl. zero-length), HashmapAug extras, random pruned subtrees through 7 parser entry points.',
+            'reference trees with random valid label kinds (incl. zero-length), HashmapAug extras, random pruned subtrees through 7 parser entry points. Augmentation values with and without a reference inside.',
             'R4 encoder/decoder validated on the pinned dictionary hash and by encoder/decoder identity'),
     'C11': ('reference-model monitor (R1 pruning + R3-encoded shard states) for completeness + fault enumeration over forgery operators for soundness, with M-INV on every cell built',
             'fault_enumeration', '4/C11',
             'Honest proofs: every pruning subset of small trees / random prunings of larger ones through check_proof, block-shaped trees through '
             'check_block_header_proof, reference-encoded ShardStateUnsplit + block through check_account_proof. Forgeries: other hash, non-Merkle roots (5 kinds), every '
-            'bit flip and 7 structural mutations of unpruned cells, substituted pruned hash/depth (stale and recomputed Merkle cell), 16 account-proof operators.',
+            'bit flip and 7 structural mutations of unpruned cells, substituted pruned hash/depth (stale and recomputed Merkle cell), 16 account-proof operators. Trees embedding Merkle cells pruned at levels 2-3; account dictionaries with extra currencies and pruned branches; several accounts of one state in a row; every forgery with both return_account_descr values.',
             'R1/R3 references; a forgery the library refuses to construct counts as rejected; operators outside the list not covered'),
     'C12': ('reference-model monitor: independent acceptance predicate (R7, PyNaCl verification) beside check_block_signatures over real keys, with fault '
             'enumeration of invalid/duplicated/foreign signature operators',
             'fault_enumeration', '4/C12',
             'Validator sets of 0..100 real Ed25519 keys x 7 weight classes; honest subsets at/below/above 2/3 (exact 2/3 included), duplicates (x1, x7, xn, pushing '
-            'over the line), 9 kinds of invalid entry at first/middle/last position, empty sets; verdict must equal R7 in both directions.',
+            'over the line), 9 kinds of invalid entry at first/middle/last position, empty sets; verdict must equal R7 in both directions. Wrong-length signatures, ids in another hex case, the same keys re-weighted in the next call, 64-bit knife-edge margins.',
             'PyNaCl Ed25519; duplicate-with-supermajority lists are not judged (ambiguous in the property)'),
     'C13': ('metamorphic round-trip monitor + independent 36-byte layout/CRC-16 reference + fault enumeration of single-character substitutions',
             'fault_enumeration', '4/C13',
-            'All 256 workchains x id patterns x 9 renderings round-trip with flags; for sampled addresses all 48x63 substitutions are rejected.',
+            'All 256 workchains x id patterns x 9 renderings round-trip with flags; for sampled addresses all 48x63 substitutions are rejected. Every parsed address is re-rendered in all 9 forms; every rejected string is presented twice.',
             'R6 CRC-16; substitution within the same 64-symbol alphabet'),
     'C14': ('reference-model monitor: independent .tl reader + TL binary codec (R5) beside TlSchemas.serialize/deserialize for every supported constructor, '
             'registry compared id by id, round-trip metamorphic check in both auto_deserialize modes',
@@ -87,36 +88,38 @@ T = {
             'exploration', '4/C15',
             'Headers of the 3 kinds (addresses none/extern/std +- anycast, amounts at var-length boundaries, extra currencies), every state-init subset, bodies swept '
             'across the bit and reference budgets of each layout incl. headers tuned to leave -1..2 bits; serialize never raises, cell decodes under R3 to the same '
-            'message, the parser returns it from its own cell and from every valid placement; stand-alone StateInit, currencies, wallet / NFT data, HashUpdate.',
+            'message, the parser returns it from its own cell and from every valid placement; stand-alone StateInit, currencies, wallet / NFT data, HashUpdate. Values built after another value was edited in place are unaffected.',
             'R3 written from the bundled block.tlb; addr_var not generated'),
     'C16': ('reference-model monitor: independent declarative transcription of block.tlb (R3, lib/tlbspec.py) encodes generated values, the parsed object is compared '
             'field by field (postcondition on the slice: exactly the sentinel bits and reference remain)',
             'exploration', '4/C16',
             '85 constructors of 45 types (transactions with the 7 description kinds and all phase variants, accounts, in/out message descriptors, envelopes, value flows, '
-            'shard descriptors, validator sets, catchain config) plus hand-written BlockInfo (all 16 structure flag combinations), McStateExtra and the bundled main-net '
-            'block; integers at the boundaries of their width (>= 2^63 for uint64); every optional-field combination reachable by the generator.',
+            'shard descriptors, validator sets, catchain config, block extra) plus hand-written BlockInfo (all 16 structure flag combinations), McStateExtra, ShardHashes over '
+            'every BinTree shape up to 6 leaves, the ConfigParam 8/28/32-37 entry points, and the bundled main-net block compared down to every transaction (267 fields); '
+            'integers at the boundaries of their width (>= 2^63 for uint64); every optional-field combination reachable by the generator.',
             'R3 transcription of the bundled block.tlb; attribute-name differences recorded in ALIAS/TAGS tables, not alarmed'),
     'C17': ('reference-model monitor (independent block.tlb VmStack encoder) + M-SNAP on caller values + double-serialisation metamorphic check',
             'exploration', '4/C17',
             'Stacks over all value kinds, integer boundaries, tuples to length 255 / nesting 6, all ten continuation kinds with control data; library '
-            'cell compared with the reference cell; parsed back from own and reference cells; caller values fingerprinted before/after.',
+            'cell compared with the reference cell; parsed back from own and reference cells; caller values fingerprinted before/after. Parsed values are used in place (tuples grown, builders stored into, slices read) and the same cell is parsed again.',
             'reference VmStack encoder; -2^63 excluded from bit-exact comparison (schema freedom)'),
     'C18': ('reference-model monitor: bitwise CRC definitions (R6) beside the table-driven implementation, with table-index coverage shadow',
             'exploration', '4/C18',
-            'All 65536 two-byte inputs (every table index under every preceding byte), all lengths 0..300/2000, long buffers, both byte orders.',
+            'All 65536 two-byte inputs (every table index under every preceding byte), all lengths 0..300/2000, long buffers, both byte orders. Odd and even long inputs around 1k..64k (1 MiB+1 thorough), alternating byte-order call sequences.',
             'R6 validated on the catalogue check values'),
     'C19': ('M-STEP logical step counter (sys.monitoring LINE + backward-JUMP events of repository code) with a budget failpoint A + B*s^2 per call '
             'and fitted growth exponents per (family, operation)',
             'exploration', '4/C19',
             'build/hash, order, to_boc x options, from_boc, copy ... on chains, random DAGs, wide trees, 2-/4-way ladders, diamonds; BoC headers with every count/size '
-            'field rewritten; TL vectors with rewritten counts, nested bytes, object lists, rewritten lengths, random bytes after ids; canonical, shared-subtree and '
+            'field rewritten and headers assembled as the product of flag/width/count values; TL vectors with rewritten counts, nested bytes, object lists (also nested in '
+            'object lists), rewritten lengths, random bytes after ids; canonical, shared-subtree and '
             'fuzzed dictionaries. "Terminates" is decided as bounded progress in logical steps.',
             'steps = LINE events + backward jumps in repository code; C-extension work not counted'),
     'C20': ('metamorphic peer-symmetry monitor with both endpoints constructed + postcondition contract on AdnlChannel.encrypt (packet layout) + '
             'signature negatives by fault enumeration (all 512 bit flips)',
             'exploration', '4/C20',
             'Key-pair/id pairs in both id orders, equal ids, ids differing in one byte; plaintext lengths 0..100000; each direction encrypted by one side and '
-            'decrypted by the other, key id expected by the peer, SHA-256 of plaintext; 3 signing helpers, negatives; sampled mnemonics valid, derivation deterministic.',
+            'decrypted by the other, key id expected by the peer, SHA-256 of plaintext; 3 signing helpers, negatives; sampled mnemonics valid, derivation deterministic. A second local identity dialing the same peer; every PyNaCl encoder; bytes moved across the signature/message boundary.',
             'libsodium / x25519 / pycryptodome trusted; mnemonic_new sampled'),
 }
 
@@ -134,7 +137,7 @@ def main():
             'evidence_file': f'/verif/evidence/{pid}.json',
             'replay_cmd_template': f'{PY} run.py {pid} --replay {{path}}',
             'engine': 'pymon',
-            'level_claimed': {'category': cat, 'text': text, 'design_ref': f'DESIGN.md section {ref}'},
+            'level_claimed': {'category': cat, 'text': text, 'design_ref': f'DESIGN.md section {ref} (plan) and section 8.4 (as built)'},
             'level_note': note,
             'technique': 'runtime monitoring: ' + tech,
         })
